@@ -104,11 +104,29 @@ def bigsum(dims, body_fn):
     return out
 
 
+def _drop_zero(A):
+    """remove sums whose summand is identically zero"""
+    from .arr import t_bin, t_z3, _num
+    keep = []
+    for t in A.terms:
+        v = t_bin("mul", t.coef, t.body)
+        if _num(v) and v == 0:
+            continue
+        if z3.is_expr(v):
+            vs = z3.simplify(v)
+            if (z3.is_rational_value(vs) or z3.is_int_value(vs)) and str(vs) in ("0", "0.0"):
+                continue
+            if valid(t_z3(v, True) == 0, extra=list(t.hyps)):
+                continue
+        keep.append(t)
+    return SumExpr(A.plain, keep)
+
+
 def sum_equal(a, b):
     """('proved'|'refuted'|'unknown', detail, model) for a == b by linearity + congruence"""
     from .arr import t_bin, t_eq, _short
-    A = a if isinstance(a, SumExpr) else SumExpr(a)
-    B = b if isinstance(b, SumExpr) else SumExpr(b)
+    A = _drop_zero(a if isinstance(a, SumExpr) else SumExpr(a))
+    B = _drop_zero(b if isinstance(b, SumExpr) else SumExpr(b))
     st, m = sym.refute_or_prove(t_eq(A.plain, B.plain))
     if st != "proved":
         return st, f"plain parts differ: {_short(A.plain)} vs {_short(B.plain)}", m
@@ -137,15 +155,41 @@ def _term_equal(s, t):
     from .arr import t_bin, t_eq, _short
     if len(s.vars) != len(t.vars):
         return "unknown", "sums over boxes of different rank", None
-    # match the bound variables in order; extents must agree
-    for e1, e2 in zip(s.exts, t.exts):
-        if not valid(e1 == e2):
-            return "unknown", f"box extents differ: {e1} vs {e2}", None
-    sub = list(zip(t.vars, s.vars))
+    n = len(s.vars)
+    # candidate pairings of the bound variables: extents must agree (Fubini: the order of summation is free)
+    ok = [[valid(e1 == e2) for e2 in t.exts] for e1 in s.exts]
     lhs = t_bin("mul", s.coef, s.body)
-    rhs = t_bin("mul", t.coef, t.body)
-    if z3.is_expr(rhs):
-        rhs = z3.substitute(rhs, *sub)
-    hy = list(s.hyps)
-    st, m = sym.refute_or_prove(t_eq(lhs, rhs), extra=hy)
-    return st, f"summands differ: {_short(lhs)} vs {_short(rhs)}", m
+    rhs0 = t_bin("mul", t.coef, t.body)
+    last = ("unknown", "no pairing of the bound variables with equal extents", None)
+    tried = 0
+    ident = tuple(range(n))
+    perms = [ident] + [p for p in itertools.permutations(range(n)) if p != ident]
+    for perm in perms:
+        if not all(ok[i][perm[i]] for i in range(n)):
+            continue
+        tried += 1
+        if tried > 24:
+            break
+        sub = [(t.vars[perm[i]], s.vars[i]) for i in range(n)]
+        rhs = z3.substitute(rhs0, *sub) if z3.is_expr(rhs0) and sub else rhs0
+        st, m = sym.refute_or_prove(t_eq(lhs, rhs), extra=list(s.hyps))
+        if st == "proved":
+            return "proved", "", None
+        if tried == 1:
+            last = (st, f"summands differ: {_short(lhs)} vs {_short(rhs)}", m)
+    return last
+
+
+def nonneg(a):
+    """every summand (coefficient * body) of a SumExpr is >= 0, and so is the plain part => the sum is >= 0
+    (Finset.sum_nonneg); returns (status, detail, model)"""
+    from .arr import t_bin, t_z3, _num
+    A = a if isinstance(a, SumExpr) else SumExpr(a)
+    st, m = sym.refute_or_prove(t_z3(A.plain, True) >= 0)
+    if st != "proved":
+        return st, "plain part may be negative", m
+    for t in A.terms:
+        st, m = sym.refute_or_prove(t_z3(t_bin("mul", t.coef, t.body), True) >= 0, extra=list(t.hyps))
+        if st != "proved":
+            return st, "a summand may be negative", m
+    return "proved", f"{len(A.terms)} sums of non-negative summands", None
